@@ -474,13 +474,13 @@ theorem width_of_faithful {oss : Bool} {work : Work} (hwf : WorkFaithful oss wor
 /-- TOTALITY and SHAPE: with a faithful work, `runTables` returns a frame with the documented columns whose
     rows are the present rows followed (iff `allow_missing`) by the missing-value rows, numbered `0..n-1` -/
 theorem run_ok {oss : Bool} {work : Work} (hwf : WorkFaithful oss work) (a : TableArgs) (l r : Frame)
-    (am : Bool) (nj cpu : Int) :
+    (am : Bool) (nj cpu : Int) (hb : Props.BodyOK a l r oss) :
     ∃ fr, runTables (a.withJobs nj) l r am oss cpu work = .ok fr ∧
       fr.columns = "_id" :: header a oss ∧
       fr.rows = (presentRows a l r nj cpu work ++ (if am then missingRows a l r oss else [])).zipIdx.map
         (fun (x : Row × Nat) => Cell.int x.2 :: x.1) := by
   have hw := width_of_faithful hwf (a.withJobs nj) l
-  obtain ⟨fr, hfr, _⟩ := runTables_ok (a.withJobs nj) l r am oss cpu work hw
+  obtain ⟨fr, hfr, _⟩ := runTables_ok (a.withJobs nj) l r am oss cpu work hw hb.lstr hb.rstr hb.noClash
   obtain ⟨hc, hr⟩ := runTables_rows (a.withJobs nj) l r am oss cpu work hw fr hfr
   exact ⟨fr, hfr, hc, hr⟩
 
@@ -568,7 +568,7 @@ theorem rows_getElem_of_eq (rows L : List Row)
     not depend on `allow_missing` / `n_jobs` / cpu), followed iff `allow_missing` by the missing-value rows,
     numbered `0..n-1` -/
 theorem TableCall.master {call : Bool → Int → Int → Except PyErr Frame} {a : TableArgs} {l r : Frame} {oss : Bool}
-    (h : TableCall call a l r oss) :
+    (h : TableCall call a l r oss) (hb : Props.BodyOK a l r oss) :
     ∃ work, WorkFaithful oss work ∧ ∀ am nj cpu, ∃ fr, call am nj cpu = .ok fr ∧
       fr.columns = "_id" :: RT.header a oss ∧
       fr.rows = (RT.presentRows a l r nj cpu work ++ (if am then RT.missingRows a l r oss else [])).zipIdx.map
@@ -576,7 +576,16 @@ theorem TableCall.master {call : Bool → Int → Int → Except PyErr Frame} {a
   obtain ⟨_, _, work, hwf, hcall⟩ := h.normal
   refine ⟨work, hwf, fun am nj cpu => ?_⟩
   rw [hcall]
-  exact RT.run_ok hwf a l r am nj cpu
+  exact RT.run_ok hwf a l r am nj cpu hb
+
+/-- a successful call of any entry point met only string join values and had no `_id` clash -/
+theorem TableCall.bodyOK {call : Bool → Int → Int → Except PyErr Frame} {a : TableArgs} {l r : Frame} {oss : Bool}
+    (h : TableCall call a l r oss) {am : Bool} {nj cpu : Int} {fr : Frame} (hfr : call am nj cpu = .ok fr) :
+    Props.BodyOK a l r oss := by
+  obtain ⟨_, _, work, _, hcall⟩ := h.normal
+  rw [hcall] at hfr
+  have hb' := runTables_bodyOK _ _ _ _ _ _ _ _ hfr
+  exact ⟨hb'.lstr, hb'.rstr, hb'.noClash⟩
 
 /-- the master statement for one successful call -/
 theorem TableCall.of_ok {call : Bool → Int → Int → Except PyErr Frame} {a : TableArgs} {l r : Frame} {oss : Bool}
@@ -585,9 +594,11 @@ theorem TableCall.of_ok {call : Bool → Int → Int → Except PyErr Frame} {a 
       fr.columns = "_id" :: RT.header a oss ∧
       fr.rows = (RT.presentRows a l r nj cpu work ++ (if am then RT.missingRows a l r oss else [])).zipIdx.map
         (fun (x : Row × Nat) => Cell.int x.2 :: x.1) := by
-  obtain ⟨work, hwf, hm⟩ := h.master
+  obtain ⟨_, _, work, hwf, hcall⟩ := h.normal
   refine ⟨work, hwf, fun am nj cpu fr hfr => ?_⟩
-  obtain ⟨fr', hfr', hc, hr⟩ := hm am nj cpu
+  rw [hcall] at hfr
+  have hb' := runTables_bodyOK _ _ _ _ _ _ _ _ hfr
+  obtain ⟨fr', hfr', hc, hr⟩ := RT.run_ok hwf a l r am nj cpu ⟨hb'.lstr, hb'.rstr, hb'.noClash⟩
   rw [hfr] at hfr'
   cases hfr'
   exact ⟨hc, hr⟩
@@ -787,13 +798,13 @@ theorem presentRows_perm {work : Work} {G : OutCfg → Nat → Nat → List Row 
     up to permutation: both succeed, same columns, rows (without `_id`) permutations of each other -/
 theorem njobs_perm {oss : Bool} {work : Work} {G : OutCfg → Nat → Nat → List Row → Row → List Row}
     (hwf : WorkFaithful oss work) (hG : WorkRowwisePerm work G) (a : TableArgs) (l r : Frame) (am : Bool)
-    (hlen : r.rows.length < 2 ^ 40) (nj cpu nj' cpu' : Int) :
+    (hlen : r.rows.length < 2 ^ 40) (nj cpu nj' cpu' : Int) (hb : Props.BodyOK a l r oss) :
     ∃ fr fr', runTables (a.withJobs nj) l r am oss cpu work = .ok fr ∧
       runTables (a.withJobs nj') l r am oss cpu' work = .ok fr' ∧
       fr.columns = fr'.columns ∧
       (fr.rows.map (fun row => row.drop 1)).Perm (fr'.rows.map (fun row => row.drop 1)) := by
-  obtain ⟨fr, h1, c1, r1⟩ := run_ok hwf a l r am nj cpu
-  obtain ⟨fr', h2, c2, r2⟩ := run_ok hwf a l r am nj' cpu'
+  obtain ⟨fr, h1, c1, r1⟩ := run_ok hwf a l r am nj cpu hb
+  obtain ⟨fr', h2, c2, r2⟩ := run_ok hwf a l r am nj' cpu' hb
   refine ⟨fr, fr', h1, h2, c1.trans c2.symm, ?_⟩
   rw [r1, r2, zipIdx_map_drop, zipIdx_map_drop]
   exact List.Perm.append_right _
@@ -802,12 +813,12 @@ theorem njobs_perm {oss : Bool} {work : Work} {G : OutCfg → Nat → Nat → Li
 /-- … with a row-wise work: the same rows in the same order, `_id` included -/
 theorem njobs_eq {oss : Bool} {work : Work} {G : OutCfg → Nat → Nat → List Row → Row → List Row}
     (hwf : WorkFaithful oss work) (hG : WorkRowwise work G) (a : TableArgs) (l r : Frame) (am : Bool)
-    (hlen : r.rows.length < 2 ^ 40) (nj cpu nj' cpu' : Int) :
+    (hlen : r.rows.length < 2 ^ 40) (nj cpu nj' cpu' : Int) (hb : Props.BodyOK a l r oss) :
     ∃ fr fr', runTables (a.withJobs nj) l r am oss cpu work = .ok fr ∧
       runTables (a.withJobs nj') l r am oss cpu' work = .ok fr' ∧
       fr.columns = fr'.columns ∧ fr.rows = fr'.rows := by
-  obtain ⟨fr, h1, c1, r1⟩ := run_ok hwf a l r am nj cpu
-  obtain ⟨fr', h2, c2, r2⟩ := run_ok hwf a l r am nj' cpu'
+  obtain ⟨fr, h1, c1, r1⟩ := run_ok hwf a l r am nj cpu hb
+  obtain ⟨fr', h2, c2, r2⟩ := run_ok hwf a l r am nj' cpu' hb
   refine ⟨fr, fr', h1, h2, c1.trans c2.symm, ?_⟩
   rw [r1, r2, presentRows_rowwise hG a l r nj cpu hlen, presentRows_rowwise hG a l r nj' cpu' hlen]
 
